@@ -146,6 +146,19 @@ def gamma_cases(draw):
         if a not in have:
             cont["units"].append([a, 1.0, 3.0, cont["units"][0][3]])
     cs["sampler"] = draw(st.sampled_from(["statistical", "shuffle-int", "shuffle-float"]))
+    if draw(st.integers(0, 5)) == 0:
+        # crowded continuum: many annotators with long units on a short time line, so that the shuffle sampler runs out of
+        # room for separated pivots and takes its fallback path
+        k = draw(st.integers(4, 6))
+        nm = ["a", "b", "c", "d", "e", "f"][:k]
+        L = float(draw(st.sampled_from([30, 40, 60])))
+        labs = gen.labels_for(cs["dissim"])
+        us = []
+        for a in nm:
+            s0 = draw(gen.dyadic(0, L / 2))
+            us.append([a, s0, s0 + L / 3 + draw(gen.dyadic(0, 4)), labs[draw(st.integers(0, len(labs) - 1))] or labs[0]])
+        cont = cs["continuum"] = {"annotators": nm, "units": us, "shape": "crowded"}
+        cs["sampler"] = draw(st.sampled_from(["shuffle-int", "shuffle-float"]))
     cs["mode"] = draw(st.sampled_from(["exact", "exact", "fast", "soft"]))
     cs["n_samples"] = draw(st.integers(2, 8))
     cs["precision"] = draw(st.sampled_from([None, None, 0.3, 0.5]))
